@@ -146,8 +146,8 @@ func newAddressBook(s storage.StateStorer, known ...*identity) addressbook.Inter
 type nopSubPub struct{}
 
 func (nopSubPub) Subscribe(subscribe.INotifier, string, string, string) error { return nil }
-func (nopSubPub) Publish(string, string, string, interface{}) error          { return nil }
-func (nopSubPub) PublishArray(string, string, string, []interface{}) error   { return nil }
+func (nopSubPub) Publish(string, string, string, interface{}) error           { return nil }
+func (nopSubPub) PublishArray(string, string, string, []interface{}) error    { return nil }
 
 var _ subscribe.SubPub = nopSubPub{}
 
